@@ -235,6 +235,9 @@ func immutableWriters(p *Program, specs *Specs) (unverified []string) {
 						}
 					}
 				case *ssa.Call:
+					if bi, ok := x.Call.Value.(*ssa.Builtin); ok && bi.Name() == "close" {
+						what = "a channel (close)"
+					}
 					if bi, ok := x.Call.Value.(*ssa.Builtin); ok && bi.Name() == "append" && len(x.Call.Args) > 0 {
 						if sl, ok := under(x.Call.Args[0].Type()).(*types.Slice); ok {
 							if _, ok := specs.ImmutableElems["[]"+typeName(sl.Elem())]; ok {
@@ -252,6 +255,9 @@ func immutableWriters(p *Program, specs *Specs) (unverified []string) {
 					continue
 				}
 				key := name + " writes " + what
+				if strings.HasSuffix(what, "(close)") {
+					key = name + " closes a channel outside any contract (closedness of channels is assumed to change only in functions under contract)"
+				}
 				if !seen[key] {
 					seen[key] = true
 					unverified = append(unverified, key)
